@@ -375,8 +375,13 @@ where
             Err(()) => mint.push(J::A(vec![jtok(tok(e)), jp()])),
         }
     }
+    let av: u32 = {
+        let s = format!("{:?}", A::arch(w).version());
+        s.chars().filter(|c| c.is_ascii_digit()).collect::<String>().parse().unwrap_or(0)
+    };
     let mut o = vec![
         ("a", ji(A::IDX)),
+        ("av", jver(av)),
         ("len", ji(len)),
         ("cap", ji(cap)),
         ("emp", J::B(emp)),
@@ -468,6 +473,7 @@ impl H {
             ("events", J::B(cfg!(feature = "events"))),
             ("wrapping", J::B(cfg!(feature = "wrapping_version"))),
             ("debug", J::B(cfg!(debug_assertions))),
+            ("num_archetypes", ji(<VW as World>::NUM_ARCHETYPES)),
             ("own_paths", ji(26)),
             ("oth_paths", ji(5 * (NARCH as i64 - 1))),
             ("und_paths", ji(4)),
